@@ -33,7 +33,46 @@ func (e *Env) RPerFileState() {
 	}
 	n := 0
 	seen := map[types.Object]bool{}
-	ast.Inspect(lit.Body, func(nd ast.Node) bool {
+	// the per-file pass is processFile's body and the bodies of the local closures it calls
+	// (a marking helper declared beside it writes on its behalf)
+	closures := map[types.Object]*ast.FuncLit{}
+	ast.Inspect(fd.Body, func(nd ast.Node) bool {
+		if as, ok := nd.(*ast.AssignStmt); ok && len(as.Lhs) == len(as.Rhs) {
+			for i, l := range as.Lhs {
+				if id, ok := l.(*ast.Ident); ok {
+					if fl, ok := as.Rhs[i].(*ast.FuncLit); ok && fl != lit {
+						if o := info.ObjectOf(id); o != nil {
+							closures[o] = fl
+						}
+					}
+				}
+			}
+		}
+		return true
+	})
+	bodies := []*ast.BlockStmt{lit.Body}
+	inPass := map[*ast.FuncLit]bool{}
+	for i := 0; i < len(bodies); i++ {
+		ast.Inspect(bodies[i], func(nd ast.Node) bool {
+			if call, ok := nd.(*ast.CallExpr); ok {
+				if id, ok := call.Fun.(*ast.Ident); ok {
+					if fl := closures[info.Uses[id]]; fl != nil && !inPass[fl] && !(lit.Body.Pos() <= fl.Pos() && fl.End() <= lit.Body.End()) {
+						inPass[fl] = true
+						bodies = append(bodies, fl.Body)
+					}
+				}
+			}
+			return true
+		})
+	}
+	for _, b := range bodies {
+		e.perFileStores(info, lit, b, seen, &n)
+	}
+	e.Run.Floor("R-FILESCOPE", "per-file collections in processFile", n, 1)
+}
+
+func (e *Env) perFileStores(info *types.Info, lit *ast.FuncLit, body *ast.BlockStmt, seen map[types.Object]bool, n *int) {
+	ast.Inspect(body, func(nd ast.Node) bool {
 		as, ok := nd.(*ast.AssignStmt)
 		if !ok {
 			return true
@@ -55,14 +94,13 @@ func (e *Env) RPerFileState() {
 				continue
 			}
 			seen[obj] = true
-			n++
+			*n++
 			inside := lit.Body.Pos() <= obj.Pos() && obj.Pos() < lit.Body.End()
 			e.Run.Check("R-FILESCOPE", "processFile: "+obj.Name()+" (written per file) is allocated per file", e.Prog.Pos(obj.Pos()), inside,
-				"the collection is declared outside the per-file pass but filled inside it: when a package is decorated, entries of one file (line numbers) leak into the files processed after it")
+				"the collection is declared outside the per-file pass but filled inside it (at "+e.Prog.Pos(as.Pos())+"): when a package is decorated, entries of one file (line numbers) leak into the files processed after it")
 		}
 		return true
 	})
-	e.Run.Floor("R-FILESCOPE", "per-file collections in processFile", n, 1)
 }
 
 // RResolverErrorsFirst: the syntax-only resolver's "cannot decide" errors (dot-import, duplicate
